@@ -243,6 +243,17 @@ def genall_c08(info):
     gen_C08(info)
 
 
+def gen_C09(info):
+    """reviewed gate list (tools/c09_gates.json) x translated programs -> Gen/C09_<year>_<k>.lean"""
+    if _gen_tool(info, 'gen_c09.py', 'c09'):
+        _load_gen_json(info, 'c09')
+    info['extra_targets'] += ['HabuVerif.Gen.C09_2021', 'HabuVerif.Gen.C09_2022', 'HabuVerif.Gen.C09_2023']
+
+
+def genall_c09(info):
+    gen_C09(info)
+
+
 def generate_all():
     """used by setup: everything that `lake build` of the whole library needs"""
     info = {'extra_targets': [], 'failed': []}
